@@ -259,7 +259,8 @@ def dqn_reference_step(q_online, q_target, rows, gamma: float, lr: float):
     targets = []
     for row in rows:
         s, a, s2 = row["s"], int(row["a"]), row["s2"]
-        terminated = row["done"] and not row["timeout"]
+        # ground truth scheduled by the simulator when available, else the stored flags
+        terminated = row["term_true"] if "term_true" in row else (row["done"] and not row["timeout"])
         a_star = int(np.argmax(q[s2]))
         y = row["r"] + gamma * (0.0 if terminated else 1.0) * qt[s2, a_star]
         targets.append(y)
